@@ -37,7 +37,7 @@ type Case struct {
 func genCase(t *rapid.T) Case {
 	c := Case{Container: rapid.Bool().Draw(t, "container")}
 	c.Wrap = c.Container && rapid.IntRange(0, 3).Draw(t, "wrap") == 0
-	c.PreRes = rapid.SampledFrom([]string{"", "", "", "", "", "val", "custom", "canceled"}).Draw(t, "preres")
+	c.PreRes = rapid.SampledFrom([]string{"", "", "", "", "", "val", "custom", "canceled", "nilerr"}).Draw(t, "preres")
 	kinds := []string{"set", "set", "await", "await", "await", "cancel", "fire"}
 	if c.Container {
 		kinds = []string{"set", "set", "await", "await", "await", "cancel", "fire", "setpromise", "setpromise", "setresult"}
@@ -165,6 +165,7 @@ func body11(c *sched.Ctl, cs Case, v *ev.Verdict) {
 	intents := map[int]intent{}
 	errIntents := map[error]intent{} // results of error-only constructed promises, by their unique error
 	sawCtorResult := false
+	var nilCtor *prom // the one promise made with NewPromiseWithErr(nil): resolved with (zero, nil)
 	newProm := func() *prom {
 		p := &prom{id: len(proms)}
 		if cs.PreRes != "" && (len(proms) == 0 || len(proms)%2 == 1) {
@@ -175,7 +176,13 @@ func body11(c *sched.Ctl, cs Case, v *ev.Verdict) {
 				kind = ""
 			}
 			p.hasRes, p.val, p.err, p.trues = true, nextVal, errOf(kind, nextVal), 1
-			if cs.PreRes == "custom" && p.id%2 == 1 {
+			if cs.PreRes == "nilerr" && nilCtor == nil {
+				// the error-only constructor given a nil error: the result is (zero value, nil)
+				nextVal--
+				p.val, p.err = 0, nil
+				p.p = promise.NewPromiseWithErr[int](nil)
+				nilCtor = p
+			} else if cs.PreRes == "custom" && p.id%2 == 1 {
 				// the error-only constructor: the result is (zero value, err); the error is unique
 				p.val = 0
 				p.p = promise.NewPromiseWithErr[int](p.err)
@@ -516,6 +523,21 @@ func body11(c *sched.Ctl, cs Case, v *ev.Verdict) {
 						}
 					}
 					return
+				}
+				if err == nil && nilCtor != nil {
+					// (zero, nil) may be the result of the promise made with NewPromiseWithErr(nil)
+					ok := !cs.Container && nilCtor == single
+					if cs.Container {
+						for k := a.startIdx; k <= a.endIdx; k++ {
+							if hist[k] == nilCtor.id {
+								ok = true
+							}
+						}
+					}
+					if ok {
+						a.src = nilCtor
+						return
+					}
 				}
 				// no value: must be a cancellation / channel event
 				switch {
